@@ -75,7 +75,18 @@ def run(pid, tier, seed):
                 scripts.append(cs)
                 cex_ids.append(cs["id"])
         scripts += pool.load_seed_scripts()
-        inp, tr = pool.run_scripts(scratch, binp, scripts, "run")
+        inp, tr0 = pool.run_scripts(scratch, binp, scripts, "run")
+        # adaptive random driver: long histories chosen from the actual state of the run
+        jobs = pool.random_jobs(pid, tier, seed)
+        jinp, tr1 = pool.run_random(scratch, binp, jobs)
+        tr = scratch.path("all-trace.ndjson")
+        with open(tr, "w") as fo:
+            for pth in (tr0, tr1):
+                with open(pth) as fi:
+                    for ln in fi:
+                        fo.write(ln)
+        for j in jobs:
+            scripts.append({"id": j["id"], "random_job": j})
         verdict = pool.validate_trace(scratch, tr, "tv")
         # --- violations of this property's clauses
         mine = []
@@ -129,6 +140,7 @@ def run(pid, tier, seed):
         cov = {
             "states": max(states, 1), "transitions": max(transitions, 1),
             "traces_validated_against_impl": len(scripts),
+            "random_driver_runs": len(jobs),
             "events_validated": verdict["n"],
             "samples": sample,
             "exhaustive": False,
